@@ -17,4 +17,4 @@ print('$pid $v', 'clean=%s patched=%s tests=%s caught=%s' % (m['demo_clean_rc'],
 PY
   done
 done
-git -C /repo status --short | head -3
+git -C /repo status --short | head -3; git -C /repo worktree prune
